@@ -490,6 +490,12 @@ pub fn perturbed_trace(net: &Net, shapes: &[crate::refmodel::net::LShape], p64: 
 /// build, install parameters, predict; compare with the reference interpreter (either reading of
 /// "the input fed to layer a" when a skip source is itself a target)
 pub fn predict_vs_ref(net: &Net, params: &[P<f32>], x: &[f32], tol: f64) -> Result<PredictOk, Mismatch> {
+    predict_vs_ref_limit(net, params, x, tol, 1.0e30)
+}
+
+/// `limit`: a case is skipped (counted as overflow) when any intermediate of the exact computation exceeds it. The default
+/// 1e30 leaves room for the partial sums of dot products; identity-like networks without partial sums can go to f32::MAX.
+pub fn predict_vs_ref_limit(net: &Net, params: &[P<f32>], x: &[f32], tol: f64, limit: f64) -> Result<PredictOk, Mismatch> {
     let shapes = ref_shapes(net).expect("predict_vs_ref: reference must accept the case");
     let lib = build_with(net, &shapes, params).map_err(Mismatch::Rejected)?;
     let xt = libnet::tensor(net.input, x);
@@ -504,7 +510,7 @@ pub fn predict_vs_ref(net: &Net, params: &[P<f32>], x: &[f32], tol: f64) -> Resu
     let tr = crate::refmodel::net::forward(net, &shapes, &p64, &x64, false);
     let want = tr.activated.last().unwrap();
     let floor = trace_max(&tr);
-    if floor > 1.0e30 {
+    if floor > limit {
         // repeated multiplication / many repetitions: the exact value is outside what f32 can hold
         return Ok(PredictOk { exact: false, nontrivial: false, lib_out: v, overflow: true });
     }
